@@ -19,6 +19,7 @@ import (
 
 type PathResult struct {
 	Facts  factSet
+	Before []factSet  // facts holding just before Nodes[i] executes
 	Nodes  []ast.Node // executed CFG nodes in order
 	Exit   token.Pos  // position of the last node (or end of body)
 	Return *ast.ReturnStmt
@@ -44,8 +45,11 @@ func (p *Program) EnumPaths(f *FuncSrc, conf *GuardConfig, limit int) ([]PathRes
 	over := false
 
 	type env map[string]symval
+	var befores []factSet
 	var walk func(b *cfg.Block, facts factSet, e env, nodes []ast.Node, onPath map[*cfg.Block]bool)
 	walk = func(b *cfg.Block, facts factSet, e env, nodes []ast.Node, onPath map[*cfg.Block]bool) {
+		depth0 := len(nodes)
+		defer func() { befores = befores[:depth0] }()
 		if over {
 			return
 		}
@@ -60,6 +64,7 @@ func (p *Program) EnumPaths(f *FuncSrc, conf *GuardConfig, limit int) ([]PathRes
 			return sv.f, true
 		}
 		for _, n := range b.Nodes {
+			befores = append(befores[:len(nodes)], facts.clone())
 			base.transfer(facts, n)
 			nodes = append(nodes, n)
 			// symbolic booleans
@@ -82,13 +87,15 @@ func (p *Program) EnumPaths(f *FuncSrc, conf *GuardConfig, limit int) ([]PathRes
 						a := fHas(canon(base.info, r))
 						base.paths[fTrue(a)] = accessPaths(base.info, r)
 						base.paths[fFalse(a)] = accessPaths(base.info, r)
-						bind(n.Lhs[1], symval{t: []string{fTrue(a)}, f: []string{fFalse(a)}}, true)
+						ap := a + "@" + p.Pos(r.Pos()) // the value the variable holds, immune to later writes
+						bind(n.Lhs[1], symval{t: []string{fTrue(a), fTrue(ap)}, f: []string{fFalse(a), fFalse(ap)}}, true)
 						bind(n.Lhs[0], symval{}, false)
 					case *ast.TypeAssertExpr:
 						a := fIs(canon(base.info, r))
 						base.paths[fTrue(a)] = accessPaths(base.info, r)
 						base.paths[fFalse(a)] = accessPaths(base.info, r)
-						bind(n.Lhs[1], symval{t: []string{fTrue(a)}, f: []string{fFalse(a)}}, true)
+						ap := a + "@" + p.Pos(r.Pos())
+						bind(n.Lhs[1], symval{t: []string{fTrue(a), fTrue(ap)}, f: []string{fFalse(a), fFalse(ap)}}, true)
 						bind(n.Lhs[0], symval{}, false)
 					default:
 						bind(n.Lhs[0], symval{}, false)
@@ -132,7 +139,7 @@ func (p *Program) EnumPaths(f *FuncSrc, conf *GuardConfig, limit int) ([]PathRes
 				over = true
 				return
 			}
-			pr := PathResult{Facts: facts.clone(), Nodes: append([]ast.Node{}, nodes...), Exit: f.Body.End()}
+			pr := PathResult{Facts: facts.clone(), Nodes: append([]ast.Node{}, nodes...), Before: append([]factSet{}, befores[:len(nodes)]...), Exit: f.Body.End()}
 			if len(nodes) > 0 {
 				pr.Exit = nodes[len(nodes)-1].Pos()
 				if rs, ok := nodes[len(nodes)-1].(*ast.ReturnStmt); ok {
